@@ -220,6 +220,9 @@ void RelayServer::process_protocol(const std::shared_ptr<ClientSession>& session
     bool progress = true;
     while (progress) {
         progress = false;
+        if (session->closing) {
+            break;
+        }
         if (session->state == SessionState::AwaitingIdentity) {
             if (session->read_buffer.size() >= kPeerIdBytes) {
                 progress = true;
